@@ -79,10 +79,10 @@ Definition c12_fails (c : cfg) (t : tstep) : list string :=
        | Some r =>
            if is_lease_reply r then
              let b := client_net c (t_pre t) m in
-             (if n_contains c b (r_yi r) then [] else ["yi-outside"])
+             (if want_contains c b (r_yi r) then [] else ["yi-outside"])
              ++ (if obeqb (opt 3 r) (ipb (want_router c b)) then [] else ["router"])
              ++ (if obeqb (opt 6 r) (ipb (want_dns c b)) then [] else ["dns"])
-             ++ (if obeqb (opt 1 r) (ipb (pmask (n_bits c b))) then [] else ["mask"])
+             ++ (if obeqb (opt 1 r) (ipb (pmask (want_bits c b))) then [] else ["mask"])
              ++ (if obeqb (opt 54 r) (ipb (c_hostip c)) then [] else ["server-id"])
              ++ (if obeqb (opt 51 r) (ipb 14400) then [] else ["lease-time"])
              ++ (if r_xid r =? m_xid m then [] else ["xid"])
